@@ -88,7 +88,10 @@ def parse_asserts(text, ks=None):
     return out
 
 
-HOSTILE_DIR = os.path.join('ns_h', 'we"ird\\dir')    # a double quote and a backslash in the DSDL path
+def ns_base(job, s):
+    """directory that holds the root namespaces of this set: plain, or below a directory name hostile to string literals"""
+    h = s.get('hostile')
+    return os.path.join(job['scratch'], 'ns_h%d' % h, job['hostile_dirs'][h - 1]) if h else os.path.join(job['scratch'], 'ns')
 
 
 def standalone(job, s, d, ext):
@@ -114,8 +117,11 @@ def standalone(job, s, d, ext):
 def gen_set(job, s):
     d = os.path.join(job['scratch'], 'out', s['id'])
     os.makedirs(d, exist_ok=True)
-    ns_dir = os.path.join(job['scratch'], HOSTILE_DIR if s.get('hostile') else 'ns', job['root'])
-    base = [PY, '-m', 'nunavut', ns_dir, '--target-language', s['lang'], '--experimental-languages'] + list(s.get('cli') or [])
+    roots = job.get('roots') or [job['root']]
+    common = ['--target-language', s['lang'], '--experimental-languages', '--allow-unregulated-fixed-port-id'] + list(s.get('cli') or [])
+    for r_ in roots:
+        common += ['--lookup-dir', os.path.join(ns_base(job, s), r_)]
+    base = [PY, '-m', 'nunavut', os.path.join(ns_base(job, s), roots[0])] + common
     if s.get('overrides'):
         cfg = os.path.join(d, 'cfg.yaml')
         with open(cfg, 'w', encoding='utf-8') as f:
@@ -131,6 +137,12 @@ def gen_set(job, s):
         rc, out = run(base + ['--outdir', os.path.join(d, 'sup'), '--generate-support', 'only'])
         if rc == 0:
             rc, out2 = run(base + ['--outdir', os.path.join(d, 'typ'), '--generate-support', 'never'])
+            out += out2
+    for extra in roots[1:]:
+        if rc == 0:
+            cmd2 = [PY, '-m', 'nunavut', os.path.join(ns_base(job, s), extra)] + base[4:] + ['--outdir', os.path.join(d, 'typ')]
+            cmd2 += ['--omit-serialization-support'] if s.get('omit') else ['--generate-support', 'never']
+            rc, out2 = run(cmd2)
             out += out2
     if rc != 0:
         res['ok'] = False
@@ -241,12 +253,14 @@ def compile_pair(job, p, sets):
                 f.writelines(text)
         control_rc, _ = run(base_cmd + ['-I', cdir, tu])
     return p['id'], {'rc': rc, 'failed': failed, 'undeclared': undeclared, 'message_ok': msg_ok, 'fatal': fatal, 'tail': out[-1200:] if rc else '',
-                     'guard_region_errors': region, 'control_rc': control_rc}
+                     'guard_region_errors': region, 'control_rc': control_rc,
+                     'errors': [m_.group(1)[:200] for m_ in re.finditer(r': (?:fatal )?error: (.*)', out)][:60]}
 
 
 def main():
     job = json.load(sys.stdin)
-    for nsd in ('ns', HOSTILE_DIR):
+    bases = ['ns'] + [os.path.join('ns_h%d' % (i + 1), hd) for i, hd in enumerate(job.get('hostile_dirs') or [])]
+    for nsd in bases:
         for rel, text in job['dsdl'].items():
             path = os.path.join(job['scratch'], nsd, rel)
             os.makedirs(os.path.dirname(path), exist_ok=True)
